@@ -1,5 +1,6 @@
 import GS.Proto
 import GS.Check.FormulaBrute
+import GS.Model.BfParse
 /-! Driver ops for formulas. Wire format of `SF` (prefix): `v i | t | f | n F | a k F*k | o k F*k | i F F | e F F | x F F | u k i*k`. -/
 namespace GS.OpsBf
 open GS GS.Proto
@@ -54,7 +55,22 @@ def opBfExport (fs : List String) : Option String := do
   if !cnfWf n cnf then some "wf-error" else
   some (b01 (exportEquiv k f (idx.map Int.toNat) n cnf))
 
+/-- `bfparse tok tok …` → `ok <formula in wire format>` | `err` | `fuel` -/
+def opBfParse (fs : List String) : Option String := do
+  let [ts] := fs | none
+  let toks := ((trim ts).splitOn " ").filter (· ≠ "")
+  match GS.BfParse.parse toks with
+  | .ok f _ => some ("ok " ++ GS.BfParse.showSF f)
+  | .err => some "err"
+  | .fuel => some "fuel"
+
+/-- `bfequiv k | F | G` → 1 when `F` and `G` agree on every assignment of names 0..k-1 -/
+def opBfEquiv (fs : List String) : Option String := do
+  let [k, f, g] := fs | none
+  let k ← parseNat k; let f ← parseSFField f; let g ← parseSFField g
+  some (b01 ((leaves k).all (fun bs => SF.eval (nameAsg bs) f == SF.eval (nameAsg bs) g)))
+
 def table : List (String × (List String → Option String)) :=
-  [("bfsat", opBfSat), ("bfeval", opBfEval), ("bfexport", opBfExport)]
+  [("bfsat", opBfSat), ("bfeval", opBfEval), ("bfexport", opBfExport), ("bfparse", opBfParse), ("bfequiv", opBfEquiv)]
 
 end GS.OpsBf
